@@ -1332,6 +1332,13 @@ void SPxSolverBase<R>::setType(Type tp)
 
          SPxBasisBase<R>::theLP = this;
 
+         // the copied basis still points to the vectors of the LP it was copied from; bind it to the vectors of this LP
+         if(this->matrixIsSetup && this->matrix.size() == dim())
+         {
+            for(int i = dim() - 1; i >= 0; --i)
+               this->matrix[i] = &this->vector(this->baseId(i));
+         }
+
          assert(!freePricer || thepricer != nullptr);
          assert(!freeRatioTester || theratiotester != nullptr);
          assert(!freeStarter || thestarter != nullptr);
@@ -1546,6 +1553,13 @@ void SPxSolverBase<R>::setType(Type tp)
       }
 
       SPxBasisBase<R>::theLP = this;
+
+      // the copied basis still points to the vectors of the LP it was copied from; bind it to the vectors of this LP
+      if(this->matrixIsSetup && this->matrix.size() == dim())
+      {
+         for(int i = dim() - 1; i >= 0; --i)
+            this->matrix[i] = &this->vector(this->baseId(i));
+      }
 
       if(base.thepricer == nullptr)
       {
